@@ -44,7 +44,8 @@ type pscript struct {
 	writes     [][]byte
 	flush      []bool
 	flushFirst bool // Flush before the first Write (as streaming handlers and proxies do)
-	copyMode   int  // 0 Write; 1 io.Copy from a plain Reader (ReadFrom where offered); 2 io.Copy from a WriterTo
+	hints      bool // an informational 103 Early Hints response before the final one
+	copyMode   int  // 0 Write; 1 io.Copy from a plain Reader (ReadFrom where offered); 2 io.Copy from a WriterTo; 3 io.WriteString
 	panicAt    int  // -1: never; k: before write k (0 = before anything is written); len(writes): after all writes
 	readBody   bool
 	readSizes  []int
@@ -57,6 +58,8 @@ type sreq struct {
 	path    string
 	query   string
 	target  string // request target sent instead of path?query (C19: absolute-form, authority-form)
+	json    bool   // the upload is labelled application/json (its body may be logged)
+	lim     int    // body limit applying to the path (0 = none)
 	hdrs    [][2]string
 	body    []byte
 	chunked bool
@@ -138,6 +141,10 @@ var logFrags = []logFrag{
 	}},
 	{"B", `B=\{\}{method}\{`, func(q *sreq, _, _, _, _ string) string { return "B={}" + q.method + "{" }},
 	{"D", `D={method}{status}`, func(q *sreq, _, _, _, _ string) string { return fmt.Sprintf("D=%s%d", q.method, q.resp.Status) }},
+	// the request body of JSON / XML uploads, line breaks escaped. How much of it is still there to be
+	// logged depends on who read it first (net/http discards an unread body when the response header goes
+	// out), so the field is compared separately: "-", or an escaped prefix of the body.
+	{"Y", `Y={request_body}`, func(q *sreq, _, _, _, _ string) string { return "Y=\x00" }},
 }
 
 var evilValues = []string{"plain", "{host}", "{>X-Req}", "{status}", `\{`, "}", "{", "{~ck}", "{?q}", "{{host}}", "{>X-Evil}", "a{b}c", `\}`, "{nosuch}", "%7Bhost%7D"}
@@ -220,6 +227,12 @@ func (r *siteRig) probe(label string, next httpserver.Handler, w http.ResponseWr
 		c.Fault("handler-panic-before-write")
 		panic("sim: scripted handler panic before writing")
 	}
+	if sc.hints {
+		// Early Hints: an informational response; the final status follows
+		c.Probe("early-hints-sent")
+		h.Add("Link", "</early.css>; rel=preload; as=style")
+		w.WriteHeader(http.StatusEarlyHints)
+	}
 	if sc.explicit {
 		park("header")
 		w.WriteHeader(sc.status)
@@ -245,6 +258,8 @@ func (r *siteRig) probe(label string, next httpserver.Handler, w http.ResponseWr
 			io.Copy(w, struct{ io.Reader }{bytes.NewReader(b)})
 		case 2:
 			io.Copy(w, bytes.NewReader(b))
+		case 3:
+			io.WriteString(w, string(b))
 		default:
 			w.Write(b)
 		}
@@ -505,6 +520,10 @@ func runSite(mode string) sim.RigFunc {
 			if r.hasTemplates {
 				b.WriteString("\ttemplates /p\n")
 			}
+			if mode == "C20" && r.logExcept != "" && !twin {
+				// rewrites that cross the excepted prefix: what is excepted is decided by the path the client asked for
+				b.WriteString("\trewrite /p/into /p/quiet/zz\n\trewrite /p/quiet/out /p/x\n")
+			}
 			if mode == "C19" && r.hasMatchers {
 				// directives whose matchers and targets are evaluated on request text
 				b.WriteString("\trewrite /p/rw {\n\t\tregexp ^/p/rw/(.*?)(/.*)?$\n\t\tto /p/x?from={1}&rest={2}&q={query}&e={>X-Evil}&c={~ck}\n\t}\n")
@@ -675,13 +694,17 @@ func (r *siteRig) genReq(id, site string) *sreq {
 		q.path = "/nogz/x"
 	case cls == 5 && r.logExcept != "":
 		// excepted paths match like every other path scope: case-insensitively, slashes merged
-		q.path = []string{"/p/quiet/x", "/p/quiet", "/P/Quiet/x", "/p//quiet/x", "/p/QUIET"}[st.Draw(5)]
-		q.noLog = true
+		q.path = []string{"/p/quiet/x", "/p/quiet", "/P/Quiet/x", "/p//quiet/x", "/p/QUIET", "/p/quiet/out", "/p/into"}[st.Draw(7)]
+		q.noLog = q.path != "/p/into" // (rewritten into the excepted prefix, asked for outside it)
+		if r.mode != "C20" && (q.path == "/p/into" || q.path == "/p/quiet/out") {
+			q.path, q.noLog = "/p/quiet/x", true
+		}
 	case cls == 6 && r.hasMime:
 		q.path = "/p/file.xyz"
 	case cls == 7 && r.limitSub != 0:
 		// inside the nested scope, a sibling that shares its prefix up to the slash, another case
-		q.path = []string{"/p/sub/x", "/p/sub/x", "/p/subway/x", "/P/Sub/x", "/p//sub/x"}[st.Draw(5)]
+		// (also with percent-escapes of ordinary letters inside the scope prefix: scopes match the decoded path)
+		q.path = []string{"/p/sub/x", "/p/sub/x", "/p/subway/x", "/P/Sub/x", "/p//sub/x", "/p/s%75b/x", "/%70/sub/x"}[st.Draw(7)]
 	default:
 		q.path = []string{"/p", "/p/x", "/p/y.html"}[st.Draw(3)]
 	}
@@ -696,7 +719,8 @@ func (r *siteRig) genReq(id, site string) *sreq {
 		r.hostileRequest(q)
 	}
 	q.ae = []string{"", "gzip", "gzip, deflate, br", "br", "zstd, gzip", "identity", "deflate", "gzip;q=0.5", "br, zstd", "zstd",
-		"gzip;q=0", "br;q=0, gzip", "identity, gzip;q=0.0", "zstd;q=0, br;q=0, gzip;q=0.000", "notgzip", "gzip2, br"}[st.Draw(16)]
+		"gzip;q=0", "br;q=0, gzip", "identity, gzip;q=0.0", "zstd;q=0, br;q=0, gzip;q=0.000", "notgzip", "gzip2, br",
+		"gzip;q=0, *", "br, gzip;q=0.0, *;q=0.1", "*"}[st.Draw(19)]
 	if sc.mode == "static" {
 		if pick(10) {
 			q.method = "HEAD"
@@ -704,6 +728,10 @@ func (r *siteRig) genReq(id, site string) *sreq {
 		return q
 	}
 	q.method = []string{"GET", "GET", "POST", "POST", "PUT", "HEAD", "DELETE"}[st.Draw(7)]
+	if pick(10) {
+		// conditional / range request headers: they concern the resource, never an error page
+		q.hdrs = append(q.hdrs, [][2]string{{"Range", "bytes=0-4"}, {"Range", "bytes=900000-"}, {"If-Modified-Since", "Fri, 01 Jan 2100 00:00:00 GMT"}, {"If-None-Match", "*"}}[st.Draw(4)])
+	}
 	// request body (limits)
 	if q.method == "POST" || q.method == "PUT" {
 		lim := r.limitFor(q.path)
@@ -719,6 +747,17 @@ func (r *siteRig) genReq(id, site string) *sreq {
 		q.body = make([]byte, n)
 		for i := range q.body {
 			q.body[i] = byte('a' + (i*13)%26)
+		}
+		q.lim = lim
+		if pick(30) {
+			// a JSON upload, with the line breaks of pretty-printed text
+			q.json = true
+			for i := 7; i < len(q.body); i += 97 {
+				q.body[i] = '\n'
+				if i%2 == 1 && i+1 < len(q.body) {
+					q.body[i], q.body[i+1] = '\r', '\n'
+				}
+			}
 		}
 		q.chunked = n > 0 && pick(35)
 		sc.readBody = r.mode == "C17" || pick(60)
@@ -766,7 +805,14 @@ func (r *siteRig) genReq(id, site string) *sreq {
 		// a Flush before any Write commits the header (an implicit 200)
 		sc.flushFirst = pick(10) && len(sc.writes) > 0 && (sc.explicit || sc.status == 200)
 		if pick(20) {
-			sc.copyMode = 1 + st.Draw(2)
+			sc.copyMode = 1 + st.Draw(3)
+		}
+		sc.hints = pick(7)
+		if pick(8) && sc.status != 204 && sc.status != 304 {
+			// a response without payload: only the header, or writes of nothing
+			sc.writes, sc.flush = [][][]byte{nil, {{}}, {{}, {}}}[st.Draw(3)], []bool{pick(50), false}
+			sc.explicit = sc.explicit || len(sc.writes) == 0
+			sc.flushFirst = sc.flushFirst && len(sc.writes) > 0
 		}
 	}
 	if sc.readBody && sc.mode == "write" {
@@ -853,6 +899,9 @@ func (r *siteRig) addConn(rs []*sreq) {
 		}
 		if q.auth {
 			b.WriteString("Authorization: Basic Ym9iOmh1bnRlcjI=\r\n")
+		}
+		if q.json {
+			b.WriteString("Content-Type: application/json; charset=utf-8\r\n")
 		}
 		if q.method == "POST" || q.method == "PUT" {
 			if q.chunked {
@@ -1053,7 +1102,7 @@ func (sc *pscript) describe() string {
 	for _, b := range sc.writes {
 		tot += len(b)
 	}
-	return fmt.Sprintf("{%s status=%d err=%v writes=%d(%dB) explicit=%v CL=%v CE=%q ctype=%q panicAt=%d readBody=%v flushFirst=%v copy=%d}", sc.mode, sc.status, sc.retErr, len(sc.writes), tot, sc.explicit, sc.setCL, sc.preCE, sc.ctype, sc.panicAt, sc.readBody, sc.flushFirst, sc.copyMode)
+	return fmt.Sprintf("{%s status=%d err=%v writes=%d(%dB) explicit=%v CL=%v CE=%q ctype=%q panicAt=%d readBody=%v flushFirst=%v copy=%d hints=%v}", sc.mode, sc.status, sc.retErr, len(sc.writes), tot, sc.explicit, sc.setCL, sc.preCE, sc.ctype, sc.panicAt, sc.readBody, sc.flushFirst, sc.copyMode, sc.hints)
 }
 
 func (r *siteRig) dirSig() string {
@@ -1159,6 +1208,9 @@ func (r *siteRig) judgeLimit(q *sreq, resp *sim.Resp, dec []byte) {
 // match as path prefixes after cleaning, case-insensitively; a scope written
 // with a trailing slash covers only what lies below it.
 func (r *siteRig) limitFor(p string) int {
+	if u, err := url.PathUnescape(p); err == nil {
+		p = u
+	}
 	cp := strings.ToLower(path.Clean(p))
 	if strings.HasSuffix(p, "/") && cp != "/" {
 		cp += "/"
@@ -1183,8 +1235,18 @@ func sgn(x int) int {
 	return 0
 }
 
-// offersCoding: the Accept-Encoding header names the coding with a weight other than zero.
+// offersCoding: the Accept-Encoding header names the coding with a weight other
+// than zero; a coding that is not named falls under "*" if that is present.
 func offersCoding(ae, coding string) bool {
+	named := false
+	for _, a := range strings.Split(ae, ",") {
+		if strings.EqualFold(strings.TrimSpace(strings.Split(a, ";")[0]), coding) {
+			named = true
+		}
+	}
+	if !named {
+		coding = "*"
+	}
 	for _, a := range strings.Split(ae, ",") {
 		parts := strings.Split(a, ";")
 		if !strings.EqualFold(strings.TrimSpace(parts[0]), coding) {
@@ -1344,7 +1406,19 @@ func (r *siteRig) judgeLog(lines []string) {
 			want += " " + f.eval(q, uri, dash(hv("X-Evil")), dash(qv), dash(ck))
 			names = append(names, f.name)
 		}
-		if got[0] != want {
+		gotLine := got[0]
+		if k := strings.Index(gotLine, " Y="); k >= 0 {
+			v := gotLine[k+3:]
+			if e := strings.Index(v, " "); e >= 0 {
+				v = v[:e]
+			}
+			esc := strings.NewReplacer("\r", "\\r", "\n", "\\n").Replace(string(q.body))
+			if v != "-" && !(q.json && strings.HasPrefix(esc, v)) {
+				c.Violate("C20/line-differs", "Y", "request %s (%s, body %d bytes, json=%v): the logged request body %q is neither the empty-value marker nor the beginning of the body with its line breaks escaped", q.id, q.method, len(q.body), q.json, trunc([]byte(v), 200))
+			}
+			gotLine = gotLine[:k+3] + "\x00" + gotLine[k+3+len(v):]
+		}
+		if gotLine != want {
 			field := "other"
 			for _, f := range r.frags {
 				if !strings.Contains(got[0], f.eval(q, uri, dash(hv("X-Evil")), dash(qv), dash(ck))) {
@@ -1355,7 +1429,7 @@ func (r *siteRig) judgeLog(lines []string) {
 			if field == "Z" && q.method == "HEAD" {
 				field = "Z/HEAD"
 			}
-			c.Violate("C20/line-differs", field, "request %s: access log line\n   got  %q\n   want %q\n (format fragments %v; %s)", q.id, got[0], want, names, r.dirSig())
+			c.Violate("C20/line-differs", field, "request %s (%s, body %d bytes, json=%v, body limit %d, chunked=%v, handler read the body: %v): access log line\n   got  %q\n   want %q\n (format fragments %v; %s)", q.id, q.method, len(q.body), q.json, q.lim, q.chunked, q.script.readBody, trunc([]byte(got[0]), 600), trunc([]byte(want), 600), names, r.dirSig())
 		}
 		c.Probe("log-line-checked")
 	}
